@@ -196,6 +196,8 @@ def reach_size(ctx, defs, c):
 def main_pipeline(ctx, progs, cases, cpu=5):
     """steps 1-3 of the module docstring on prepared programs / cases; returns (all cases, defs)"""
     import concurrent.futures
+    import time
+    t0 = time.time()
     # -- clause dumps of the real code, breadth first (depth 2) ------------------------------
     run_rules(cases)
     seen = {(c.pidx, c.atom) for c in cases}
@@ -211,12 +213,15 @@ def main_pipeline(ctx, progs, cases, cpu=5):
                         extra.append(e)
     run_rules(extra)
     allc = cases + extra
+    t1 = time.time()
     # -- model side (Coq) and the real solvers, side by side ---------------------------------
     with concurrent.futures.ThreadPoolExecutor(max_workers=2) as ex:
         f1 = ex.submit(coq_batch, ctx, "all", progs, allc)
         f2 = ex.submit(run_solvers, allc, cpu)
         defs, wf = f1.result()
+        t2 = time.time()
         f2.result()
+    ctx.cov["phase_s"] = {"clause_dumps": round(t1 - t0, 1), "coq_batch": round(t2 - t1, 1), "solvers_after_coq": round(time.time() - t2, 1)}
     bad_wf = [i for i, k in wf.items() if k != 1]
     if bad_wf:
         # the generator promises well-formed declarations: a harness-side error, not a verdict on chalk
